@@ -220,7 +220,7 @@ def op_unknown_type(form, r):
     if not c:
         return None
     n, anc = c
-    bad = r.choice([f"{TOK}text", f"selct_{TOK} l1", f"{TOK}", f"integer{TOK}", f"begin {TOK}"])
+    bad = r.choice([f"{TOK}text", f"selct_{TOK} l1", f"{TOK}", f"integer{TOK}", f"begin {TOK}", f"integer osm {TOK}", f"{TOK}osm l1", f"osm l1 and {TOK}"])
     n["c"]["type"] = bad
     return Plan(form, tokens=[bad], depth=len(anc))
 
@@ -656,7 +656,7 @@ def op_external_unknown_list(form, r):
 
 
 def op_bad_trigger(form, r):
-    kind = r.choice(["not-a-ref", "missing", "hidden-source", "bg-no-trigger", "bg-with-calc", "several-refs", "several-refs"])
+    kind = r.choice(["not-a-ref", "missing", "hidden-source", "bg-no-trigger", "bg-with-calc", "several-refs", "several-refs", "no-control-source", "group-source"])
     vis = [n for n, _ in _questions(form, lambda n: base_type(n["c"].get("type")) in VISIBLE_SIMPLE and "name" in n["c"]
                                and any(k.split("::")[0] == "label" for k in n["c"]) and "calculation" not in n["c"])]
     tok = f"{TOK}_t"
@@ -670,6 +670,15 @@ def op_bad_trigger(form, r):
         toks = [tok]
     elif kind == "hidden-source":
         form["nodes"].append({"k": "q", "c": {"type": "calculate", "name": tok, "calculation": "1"}})
+        node["c"]["trigger"] = "${%s}" % tok
+        toks = [tok]
+    elif kind == "no-control-source":
+        # hidden / metadata rows have no control in which the action could be nested
+        form["nodes"].append({"k": "q", "c": {"type": r.choice(["hidden", "start", "today", "deviceid", "username"]), "name": tok}})
+        node["c"]["trigger"] = "${%s}" % tok
+        toks = [tok]
+    elif kind == "group-source":
+        form["nodes"].append({"k": r.choice(["g", "r"]), "c": {"name": tok, "label": "G"}, "ch": [{"k": "q", "c": {"type": "text", "name": f"{TOK}in", "label": "I"}}]})
         node["c"]["trigger"] = "${%s}" % tok
         toks = [tok]
     elif kind == "several-refs":
@@ -778,8 +787,10 @@ def op_loop_problems(form, r):
 def op_bad_attribute_header(form, r):
     kind = r.choice(["survey", "settings"])
     if kind == "settings":
-        key = r.choice([f"attribute::9{TOK}", f"attribute::{TOK} b", f"attribute::{TOK}:x"])
+        key = r.choice([f"attribute::9{TOK}", f"attribute::{TOK} b", f"attribute::{TOK}:x", "attribute"])
         form.setdefault("settings", {})[key] = "v"
+        if key == "attribute":
+            return Plan(form, tokens=["attribute"], stable=False, note="settings-bare")
         return Plan(form, tokens=[key.split("::")[1]], stable=False, note="settings")
     c = _pick(r, _questions(form, lambda n: base_type(n["c"].get("type")) in VISIBLE_SIMPLE and any(k.split("::")[0] == "label" for k in n["c"])
                             and "calculation" not in n["c"] and "trigger" not in n["c"]))
@@ -852,7 +863,8 @@ def _cases(draw):
     which = draw(st.integers(0, 10))
     if which < 7:
         prof = dict(gen.PROFILES["broad"], max_depth=4, p_group=0.22, p_repeat=0.18, p_blank_row=0.12, text="plain", text_ctl=False,
-                    p_table_list=0.03, p_params=0.4, p_search=0.0, p_entities=0.1, settings="some", p_extra_sheets=0.0)
+                    p_table_list=0.03, p_params=0.4, p_search=0.0, p_entities=0.1, settings="some", p_extra_sheets=0.0, p_osm=0.05, p_osm_self=0.3,
+                    p_extra_cols=0.3, extra_col_names=["fields", "self", "kwargs", "type", "e1", "media", "control", "bind"])
         g = gen.G(draw, prof)
         form = gen.build_form(draw, prof, g=g)
         op = g.pick(OP_NAMES)
